@@ -9,7 +9,7 @@ Ltac core :=
   cbn [chans genctr gclosed gst hub thr next_ext next_int
        set_status set_authed set_closing set_chans set_genctr set_gclosed set_cmu set_pmu set_pinfl
        set_kstarted set_slock set_hub set_others set_reg set_pres set_bsub set_jobs set_gconn set_gsub
-       set_trace set_thr set_next_ext set_next_int set_panicked set_wclosed set_gst].
+       set_trace set_thr set_next_ext set_next_int set_panicked set_wclosed set_hreg set_shut set_gst].
 
 (* components of close_gate / close_cap / hubrem *)
 Lemma close_gate_core g s :
@@ -479,7 +479,7 @@ Proof.
            rewrite EH. intros [= ->]. congruence.
         -- rewrite EH. discriminate.
   - (* UHandler *)
-    inv H. destruct (c_sub (u_ctx u)); core;
+    inv H. destruct (c_sub (u_ctx u) && hreg s); core;
       (eapply P_dead; [exact I|exact OK| |apply (e_ok0 _ E)];
        rewrite ET; intros P; apply (e_pre _ E) in P; unfold u_pre in P; rewrite EPC in P; tauto).
 Qed.
@@ -562,6 +562,14 @@ Proof.
   - eapply job_step_inv; eauto.
 Qed.
 
+Lemma InvC_bump cs gc gcl gs hb th ne ni ne' ni' :
+  InvC cs gc gcl gs hb th ne ni -> ne <= ne' -> ni <= ni' -> InvC cs gc gcl gs hb th ne' ni'.
+Proof.
+  intros I L1 L2. destruct I as [A1 A2 A3 A4 A5 A6 A7 A8 A9 A10 A11]. constructor; auto.
+  intros t0 H0. specialize (A3 t0 H0).
+  destruct A3 as [(k & -> & Hk)|(k & -> & Hk)]; [left|right]; exists k; split; auto; lia.
+Qed.
+
 Lemma spawn_inv s o s' : Inv s -> spawn s o = Some s' -> Inv s'.
 Proof.
   intros I H. unfold spawn in H.
@@ -572,7 +580,11 @@ Proof.
     repeat match type of H with
     | (if ?c then _ else _) = _ => destruct c
     end; try discriminate; inv H; core;
-    (eapply P_spawn; [exact I|exact FR|lia|lia|exact TOK|cbn; auto]).
+    try (eapply P_spawn; [exact I|exact FR|lia|lia|exact TOK|cbn; auto]; fail).
+  (* OShutdown: no thread of its own; closes the connection if it is registered *)
+  destruct (reg s); core.
+  - eapply P_spawn; [exact I|eapply fresh_int; eauto|lia|lia|right; exists (next_int s); split; auto; lia|cbn; auto].
+  - eapply InvC_bump; [exact I|lia|lia].
 Qed.
 
 Lemma astep_inv s l s' : Inv s -> is_timeout l = false -> astep s l = Some s' -> Inv s'.
